@@ -356,6 +356,58 @@ mod sched_part {
     }
 }
 
+/// The iterator back-end owns the write end handed to `with_pipe`: after a rejected constructor list
+/// (an accepted signal first, then one refused with an error / by panic) the write end is closed - its
+/// peer reads end-of-file - and deliveries of the accepted signal write nothing.
+fn with_pipe_cell(variant: usize, e: &mut Emit) {
+    use signal_hook::iterator::backend::SignalDelivery;
+    use signal_hook::iterator::exfiltrator::SignalOnly;
+    use std::os::unix::io::AsRawFd;
+    use std::os::unix::net::UnixStream;
+    counters::install();
+    let (r, w) = UnixStream::pair().unwrap();
+    let probe = r.try_clone().unwrap();
+    probe.set_nonblocking(true).unwrap();
+    let wfd = w.as_raw_fd();
+    let closes0 = close_count(wfd);
+    let list: Vec<i32> = match variant {
+        0 => vec![SIG, 100],
+        1 => vec![SIG, libc::SIGKILL],
+        2 => vec![SIG, libc::SIGWINCH, -3],
+        _ => vec![SIG],
+    };
+    let out = std::panic::catch_unwind(std::panic::AssertUnwindSafe(|| SignalDelivery::with_pipe(r, w, SignalOnly::default(), &list)));
+    let outcome = match &out {
+        Ok(Ok(_)) => "ok",
+        Ok(Err(_)) => "err",
+        Err(_) => "panic",
+    };
+    e.line(&format!("outcome={}", outcome));
+    if variant == 3 {
+        // accepted: drop the instance, then the same observations
+        drop(out);
+    }
+    e.line(&format!("closed={}", !fd_open(wfd) as u8));
+    e.line(&format!("close_calls={}", close_count(wfd) - closes0));
+    let w0 = counters::wakes();
+    for _ in 0..3 {
+        unsafe {
+            libc::raise(SIG);
+        }
+    }
+    e.line(&format!("later_wakes={}", counters::wakes() - w0));
+    let mut buf = [0u8; 16];
+    use std::io::Read;
+    let mut pr = probe;
+    let seen = match pr.read(&mut buf) {
+        Ok(0) => "eof".to_string(),
+        Ok(n) => format!("{}-bytes", n),
+        Err(er) => format!("open-{:?}", er.kind()),
+    };
+    e.line(&format!("peer_sees={}", seen));
+    e.line("done");
+}
+
 pub fn run(tier: Tier) -> BResult {
     let kinds = [Kind::Pipe, Kind::Stream, Kind::Dgram];
     let bursts: Vec<usize> = if tier == Tier::Quick { vec![0, 1, 2, 3, 4] } else { (0..=8).collect() };
@@ -364,6 +416,7 @@ pub fn run(tier: Tier) -> BResult {
         Wake(Kind, usize, usize, bool),
         Own(Kind, usize),
         IterBurst(usize),
+        WithPipe(usize),
     }
     let mut cells: Vec<Cell> = Vec::new();
     for &k in &kinds {
@@ -381,11 +434,15 @@ pub fn run(tier: Tier) -> BResult {
     for n in [1usize, 300, 3000] {
         cells.push(Cell::IterBurst(n));
     }
+    for v in 0..4 {
+        cells.push(Cell::WithPipe(v));
+    }
     let cells2 = cells.clone();
     let probes = run_cells(cells.len(), 12, Duration::from_secs(15), move |i, e| match &cells2[i] {
         Cell::Wake(k, f, b, raw) => wake_cell(*k, *f, *b, *raw, e),
         Cell::Own(k, v) => own_cell(*k, *v, e),
         Cell::IterBurst(n) => iterator_burst(*n, e),
+        Cell::WithPipe(v) => with_pipe_cell(*v, e),
     });
     let mut violations = Vec::new();
     let mut samples = Vec::new();
@@ -442,6 +499,25 @@ pub fn run(tier: Tier) -> BResult {
                     bad = Some(format!("{} deliveries made {} wake attempts", n, p.find("wakes=").unwrap_or("")));
                 } else if p.find("pending=") != Some("[10]") || p.find("wait_after_drain=") != Some("[10]") {
                     bad = Some(format!("after the burst pending() gave {} and, after one more delivery, wait() gave {}", p.find("pending=").unwrap_or(""), p.find("wait_after_drain=").unwrap_or("")));
+                }
+            }
+            Cell::WithPipe(v) => {
+                transitions += 5;
+                let names = ["list [accepted, refused by the OS]", "list [accepted, forbidden]", "list [accepted, accepted, negative]", "accepted list, instance dropped"];
+                case = json!({"kind": "write end handed to SignalDelivery::with_pipe", "history": names[*v]});
+                *classes.entry(format!("with_pipe:{}", names[*v])).or_insert(0) += 1;
+                distinct.insert(format!("withpipe{}{}", v, p.find("outcome=").unwrap_or("")));
+                let want = ["err", "panic", "panic", "ok"][*v];
+                if p.fate != Fate::Exited(0) || !p.has("done") {
+                    bad = Some(format!("child {}: {:?}", p.fate.describe(), p.lines.last()));
+                } else if p.find("outcome=") != Some(want) {
+                    bad = Some(format!("outcome {} (expected {})", p.find("outcome=").unwrap_or(""), want));
+                } else if p.find("closed=") != Some("1") || p.find("peer_sees=") != Some("eof") {
+                    bad = Some(format!("the write end handed over is still open after the {} (descriptor closed: {}, its peer sees {})", if *v == 3 { "instance was dropped" } else { "constructor refused the list" }, p.find("closed=").unwrap_or(""), p.find("peer_sees=").unwrap_or("")));
+                } else if p.find("close_calls=") != Some("1") {
+                    bad = Some(format!("close() was called {} times on the write end", p.find("close_calls=").unwrap_or("")));
+                } else if p.find("later_wakes=") != Some("0") {
+                    bad = Some(format!("3 later deliveries of the accepted signal made {} wake attempts (its action was not removed: the descriptor is written to after it was given up)", p.find("later_wakes=").unwrap_or("")));
                 }
             }
             Cell::Own(k, v) => {
@@ -517,7 +593,7 @@ pub fn run(tier: Tier) -> BResult {
         violations,
         exhaustive: a_caps.is_empty(),
         caps: a_caps,
-        rule: format!("schedules: the action of a registered pipe is removed and an iterator instance and its last handle are dropped (both orders) while the signal is delivered from another thread and nested at every operation boundary of the teardown - every wake attempt must hit an open descriptor, and none happens once the owners are gone; every choice vector within the deviation bound on the real code; grid: complete grid descriptor kind {{pipe, unix stream, unix datagram}} x fill level {{empty, nearly full, completely full}} x burst {:?} x entry {{register_raw, register}} + 5 ownership histories per kind (register/deliver/unregister; rejected: forbidden, OS-refused, fd -1, closed number; then a sentinel on the freed number while the library keeps being used); each cell in a forked child with a watchdog", bursts),
+        rule: format!("schedules: the action of a registered pipe is removed and an iterator instance and its last handle are dropped (both orders) while the signal is delivered from another thread and nested at every operation boundary of the teardown - every wake attempt must hit an open descriptor, and none happens once the owners are gone; every choice vector within the deviation bound on the real code; grid: complete grid descriptor kind {{pipe, unix stream, unix datagram}} x fill level {{empty, nearly full, completely full}} x burst {:?} x entry {{register_raw, register}} + 5 ownership histories per kind (register/deliver/unregister; rejected: forbidden, OS-refused, fd -1, closed number; then a sentinel on the freed number while the library keeps being used) + 4 histories of a write end handed to SignalDelivery::with_pipe (list refused by the OS / by panic after an accepted signal; accepted list then drop); each cell in a forked child with a watchdog", bursts),
         assumptions: vec!["wake attempts are counted through the cfg(sighook_verif) scheduling point in pipe::wake".into(), "pipe capacity reduced to one page with F_SETPIPE_SZ".into()],
     }
 }
